@@ -2,7 +2,7 @@
    concrete witnesses of the confirmed defects (all evaluated by vm_compute). *)
 From Coq Require Import List NArith ZArith Bool Arith Lia Permutation.
 From SW Require Import model.VolPlanner proof.VolPlannerProofs proof.VolPlannerProofs2
-  proof.VolPlannerProofs3.
+  proof.VolPlannerProofs3 proof.VolPlannerProofs5 proof.VolPlannerProofs6.
 Import ListNotations.
 
 Definition nodupb_N (l : list N) : bool := Nat.eqb (length (nodup N.eq_dec l)) (length l).
@@ -108,3 +108,147 @@ Definition ex_snap : snapshot :=
 Definition ex_plan : list step := [Move 1 0 1 3]%N.
 Definition ex_fix_snap : snapshot :=
   [ mknode 1 1 1 4 [mkvol 1 10 10 false]; mknode 1 1 2 4 []; mknode 1 2 3 4 [] ]%N.
+
+(* ---------- k=3: an over-replicated 010 volume on n1(r1), n2(r1), n3(r2); n3 is the oldest ---------- *)
+Definition mkvolm (id rp size mtime : N) : vol :=
+  {| v_id := id; v_coll := 0; v_rp := rp; v_size := size; v_ro := false; v_dt := 0; v_mtime := mtime; v_crev := 0 |}.
+Definition w6_snap : snapshot :=
+  [ mknode 1 1 1 4 [mkvolm 1 10 10 2]; mknode 1 1 2 4 [mkvolm 1 10 10 2]; mknode 1 2 3 4 [mkvolm 1 10 10 1] ]%N.
+Definition w6_events : list fevent := [FOver 1; FDelete 1 3]%N.
+Lemma w6_facts : wf_snapb w6_snap = true /\ counts_okb w6_snap = true /\
+  fix_accepts w6_snap 0 w6_events = true /\
+  (* {n1, n3} and {n2, n3} are valid 010 layouts, {n1, n2} is not *)
+  has_valid_subset (rp_of_byte 10) (locs (reps_of w6_snap 1)) = true /\
+  has_valid_subset (rp_of_byte 10) (locs (remove_at 3 (reps_of w6_snap 1))) = false /\
+  ok_pres (prop_trace w6_snap (init_world w6_snap) (fix_steps w6_events)) = false /\
+  step_delete_trig (init_world w6_snap) (Delete 1 3) = true /\
+  (* purging n1 or n2 instead would have kept the placement, but the age order forbids it *)
+  fix_accepts w6_snap 0 [FOver 1; FDelete 1 1]%N = false /\
+  ok_pres (prop_trace w6_snap (init_world w6_snap) [Delete 1 1]%N) = true.
+Proof. vm_compute. repeat split; reflexivity. Qed.
+
+(* with all copies equally old any of them may be purged, whatever the volume: only the HEAD
+   of the over-replicated list is handled in a dry run *)
+Definition w6b_snap : snapshot :=
+  [ mknode 1 1 1 4 [mkvol 1 0 10 false; mkvol 2 0 10 false]; mknode 1 1 2 4 [mkvol 1 0 10 false; mkvol 2 0 10 false] ]%N.
+Lemma w6b_facts :
+  fix_accepts w6b_snap 0 [FOver 1; FOver 2; FDelete 1 2]%N = true /\
+  fix_accepts w6b_snap 0 [FOver 2; FOver 1; FDelete 2 1]%N = true /\
+  fix_accepts w6b_snap 0 [FOver 1; FOver 2; FDelete 2 1]%N = false /\
+  step_delete_trig (init_world w6b_snap) (Delete 1 2) = false.
+Proof. vm_compute. repeat split; reflexivity. Qed.
+
+(* ---------- one volume moved twice in one volume.balance run ---------- *)
+(* 010 volume 1 on the full servers n1 (r1) and n2 (r2); empty n3 (r3), n4 (r4): both copies move *)
+Definition w7_snap : snapshot :=
+  [ mknode 1 1 1 2 [mkvol 1 10 10 false; mkvol 11 0 500 false];
+    mknode 1 2 2 2 [mkvol 1 10 10 false; mkvol 21 0 500 false];
+    mknode 1 3 3 4 []; mknode 1 4 4 4 [] ]%N.
+Definition w7_plan : list step := [Move 1 0 2 3; Move 1 0 1 4]%N.
+(* the same with n3 and n4 on ONE rack: the second copy of volume 1 must stay (both copies
+   would share rack r3), volume 11 goes instead *)
+Definition w8_snap : snapshot :=
+  [ mknode 1 1 1 2 [mkvol 1 10 10 false; mkvol 11 0 500 false];
+    mknode 1 2 2 2 [mkvol 1 10 10 false; mkvol 21 0 500 false];
+    mknode 1 3 3 4 []; mknode 1 3 4 4 [] ]%N.
+Definition w8_plan : list step := [Move 1 0 2 3; Move 11 0 1 4]%N.
+Lemma w7_facts : wf_snapb w7_snap = true /\
+  is_some (balance_accepts 1000 w7_snap [None] [0%N] w7_plan) = true /\
+  v4_all (prop_trace w7_snap (init_world w7_snap) w7_plan) = true /\
+  locs (w_reps (run_trace w7_snap (init_world w7_snap) w7_plan) 1) =
+    [ {| l_dc := 1; l_rack := 4; l_node := 4 |}; {| l_dc := 1; l_rack := 3; l_node := 3 |} ]%N /\
+  wf_snapb w8_snap = true /\
+  is_some (balance_accepts 1000 w8_snap [None] [0%N] w8_plan) = true /\
+  (* moving the second copy of volume 1 next to the first is not a plan of the planner ... *)
+  is_some (balance_accepts 1000 w8_snap [None] [0%N] [Move 1 0 2 3; Move 1 0 1 4]%N) = false /\
+  (* ... and would break the placement *)
+  ok_pres (prop_trace w8_snap (init_world w8_snap) [Move 1 0 2 3; Move 1 0 1 4]%N) = false /\
+  v4_all (prop_trace w8_snap (init_world w8_snap) w8_plan) = true.
+Proof. vm_compute. repeat split; reflexivity. Qed.
+
+(* ---------- non-vacuity of the function-level theorems ---------- *)
+Definition exl (dc rack id : N) : loc := {| l_dc := dc; l_rack := rack; l_node := id |}.
+
+Lemma ids_ok_3 : forall a b c, l_node a <> l_node b -> l_node a <> l_node c -> l_node b <> l_node c ->
+  ids_ok [a; b; c].
+Proof.
+  intros a b c H1 H2 H3 x y Hx Hy E.
+  destruct Hx as [<-|[<-|[<-|[]]]]; destruct Hy as [<-|[<-|[<-|[]]]]; auto; congruence.
+Qed.
+
+(* isGoodMove on a 010 volume: n1 (r1), n2 (r2), the copy on n1 moves to n3 (r3) *)
+Lemma ex_good_move_facts :
+  let p := rp_of_byte 10 in let l := [exl 1 1 1; exl 1 2 2] in let f := exl 1 1 1 in let t := exl 1 3 3 in
+  valid_placement p l = true /\ In f l /\ ids_ok (t :: l) /\ is_good_move p l f t = true /\
+  rp_trig p = false /\ valid_placement p (relocate_loc f t l) = true.
+Proof.
+  cbv zeta. split; [vm_compute; reflexivity|]. split; [left; reflexivity|].
+  split; [apply ids_ok_3; vm_compute; discriminate|]. vm_compute. auto.
+Qed.
+
+(* satisfyReplicaPlacement on a 011 volume with copies on n1 (r1) and n2 (r2): n3 on r1 is admitted *)
+Lemma ex_satisfy_facts :
+  let p := rp_of_byte 11 in let l := [exl 1 1 1; exl 1 2 2] in let c := exl 1 1 3 in
+  SubP p l /\ ids_ok (c :: l) /\ satisfy p l c = true /\ valid_placement p (c :: l) = true.
+Proof.
+  cbv zeta. split; [apply sub_placement_iff; vm_compute; reflexivity|].
+  split; [apply ids_ok_3; vm_compute; discriminate|]. vm_compute. auto.
+Qed.
+
+(* ---------- a balance run that moves a REPLICATED (010) volume, every hypothesis satisfied ---------- *)
+Definition ex2_snap : snapshot :=
+  [ mknode 1 1 1 4 [mkvol 1 10 10 false; mkvol 2 0 20 false; mkvol 3 0 30 false];
+    mknode 1 2 2 4 [mkvol 1 10 10 false]; mknode 1 3 3 4 [] ]%N.
+Definition ex2_plan : list step := [Move 1 0 1 3]%N.
+Definition ex2_ctx : bctx := mk_bctx 1000 ex2_snap {| ph_coll := None; ph_dt := 0; ph_ro := false |}.
+Definition ex2_st : bstate :=
+  {| b_sel := init_sel 1000 ex2_snap {| ph_coll := None; ph_dt := 0; ph_ro := false |}; b_w := init_world ex2_snap |}.
+
+Lemma ex2_facts :
+  wf_snapb ex2_snap = true /\ phases_ok (phases_of [None] [0%N]) = true /\
+  is_some (balance_accepts 1000 ex2_snap [None] [0%N] ex2_plan) = true /\
+  balance_cap_excused 1000 ex2_snap (phases_of [None] [0%N]) (init_world ex2_snap) ex2_plan = true /\
+  trig_balance_cap 1000 ex2_snap (phases_of [None] [0%N]) (init_world ex2_snap) ex2_plan = false /\
+  step_rp_trig (init_world ex2_snap) (Move 1 0 1 3) = false /\
+  valid_placement (rp_of_byte 10) (locs (w_reps (init_world ex2_snap) 1)) = true /\
+  valid_placement (rp_of_byte 10) (locs (w_reps (run_trace ex2_snap (init_world ex2_snap) ex2_plan) 1)) = true /\
+  v4_all (prop_trace ex2_snap (init_world ex2_snap) ex2_plan) = true.
+Proof. vm_compute. repeat split; reflexivity. Qed.
+
+Lemma ex2_own_capacity_facts :
+  balance_step_ok ex2_ctx ex2_st 1 0 1 3 = true /\
+  find_cap ex2_ctx 3 = Some (exl 1 3 3, 4%Z) /\
+  (0 < bc_max_total ex2_ctx)%Z /\ (bc_sel_total ex2_ctx <= bc_max_total ex2_ctx)%Z /\ (0 < snd (exl 1 3 3, 4%Z))%Z.
+Proof.
+  split; [vm_compute; reflexivity|]. split; [vm_compute; reflexivity|].
+  split; [vm_compute; reflexivity|]. split; [vm_compute; discriminate|vm_compute; reflexivity].
+Qed.
+
+(* ---------- the examples of props/C15.v ---------- *)
+Lemma ex_balance_facts :
+  wf_snapb ex_snap = true /\ trig_rp_xy ex_snap = false /\
+  phases_ok (phases_of [None] [0%N; 1%N]) = true /\ phases_ok (phases_of [Some 1%N; Some 2%N] [0%N; 1%N]) = true /\
+  is_some (balance_accepts 1000 ex_snap [None] [0%N] ex_plan) = true /\
+  trig_balance_cap 1000 ex_snap (phases_of [None] [0%N]) (init_world ex_snap) ex_plan = false /\
+  v4_all (prop_trace ex_snap (init_world ex_snap) ex_plan) = true.
+Proof. vm_compute. repeat split; reflexivity. Qed.
+
+Lemma ex_evacuate_repair_facts :
+  evac_accepts ex_snap 1 true [EMove 1 0 2; EMove 2 0 2; ESkip 3]%N = true /\ trig_evac_cap ex_snap 1 = false /\
+  excused ok_cap (step_evac_trig ex_snap 1) ex_snap (init_world ex_snap)
+          (evac_steps 1 [EMove 1 0 2; EMove 2 0 2; ESkip 3]%N) = true /\
+  step_evac_trig ex_snap 1 (init_world ex_snap) (Move 1 0 1 2) = false /\
+  wf_snapb ex_fix_snap = true /\ counts_okb ex_fix_snap = true /\
+  fix_accepts ex_fix_snap 0 [FCopy 1 1 3]%N = true /\
+  v4_all (prop_trace ex_fix_snap (init_world ex_fix_snap) [Copy 1 1 3]%N) = true.
+Proof. vm_compute. repeat split; reflexivity. Qed.
+
+Lemma ex_repaired_facts :
+  (fix_accepts w2_snap 0 [FCopy 1 1 2; FCopy 2 1 2]%N = false /\ fix_accepts w2_snap 0 w2_events = true /\
+   v4_all (prop_trace w2_snap (init_world w2_snap) (fix_steps w2_events)) = true) /\
+  (fix_accepts w3_snap 1 [FCopy 1 1 2; FCopy 1 1 2]%N = false /\ fix_accepts w3_snap 1 w3_events = true /\
+   v4_all (prop_trace w3_snap (init_world w3_snap) (fix_steps w3_events)) = true) /\
+  (is_some (balance_accepts 1000 w4_snap [None] [0%N] [Move 1 0 1 2]%N) = false /\
+   is_some (balance_accepts 1000 w4_snap [None] [0%N] w4_plan) = true /\
+   v4_all (prop_trace w4_snap (init_world w4_snap) w4_plan) = true).
+Proof. vm_compute. repeat split; reflexivity. Qed.
